@@ -54,6 +54,7 @@ LPREP = [
     ["select", [src("L", "k")]],  # hides v
     ["rename", [["k", "kk"]]],
     ["alias"],
+    ["mutate", [["v", ["fill_null", src("L", "v"), lit(0)]]]],  # not null for a row of nulls (outer join padding)
 ]
 RPREP = [
     None,
@@ -62,6 +63,7 @@ RPREP = [
     {"hist": [["select", [src("R", "k")]]]},
     {"hist": [["rename", [["w", "v"]]]]},  # name clash with the left v
     {"alias": True},
+    {"hist": [["mutate", [["w", ["coalesce", src("R", "w"), lit(7)]]]]]},  # not null for a row of nulls
 ]
 
 
@@ -88,6 +90,9 @@ def join_events(lalias: bool, rpreps):
             [["eq", ["add", lk, lit(1)], rk]],
             [["and", ["eq", lk, rk], ["gt", lv, lit(1)]]],
             [["eq", rk, lk]],  # right column first
+            [["eq", rk, rw]],  # an equality over the right table only (a predicate, not a join key; refused by full joins)
+            [["and", ["eq", lk, rk], ["eq", lv, lit(1)]]],  # a key and an equality with a constant
+            [["eq", ["add", lk, rk], lit(2)]],  # an equality that mixes both tables in one argument
         ]
         for how in ("inner", "left", "full"):
             for on in ons:
